@@ -76,26 +76,34 @@ def canon (d : Nat) (cells : List Cell) : List Cell := isort (cellLe d) cells
 
 inductive Op where
   | refined
-  | refinedBy (sel : List Nat)
+  | refinedBy (sel : List Int)
 deriving Repr
 
-/-- replace the cells at the selected positions by their children (positions outside the list select nothing,
-duplicates count once — `numpy.unique`) -/
+/-- replace the cells at the selected positions by their children (duplicates count once — `numpy.unique`) -/
 def refineSel (d : Nat) (cells : List Cell) (sel : List Nat) : List Cell :=
   cells.zipIdx.flatMap fun ci => if sel.contains ci.2 then children d ci.1 else [ci.1]
 
-def step (d : Nat) (cells : List Cell) : Op → List Cell
-  | .refined => canon d (cells.flatMap (children d))
-  | .refinedBy sel => canon d (refineSel d cells sel)
+/-- index handling of `Topology.refined_by`: negative indices count from the end, anything outside `[0, n)` is rejected -/
+def normIndex (n : Nat) (i : Int) : Option Nat :=
+  let j := if i < 0 then i + n else i
+  if 0 ≤ j ∧ j < n then some j.toNat else none
+
+def step (d : Nat) (cells : List Cell) : Op → Except String (List Cell)
+  | .refined => .ok (canon d (cells.flatMap (children d)))
+  | .refinedBy sel =>
+    match sel.mapM (normIndex cells.length) with
+    | some s => .ok (canon d (refineSel d cells s))
+    | none => .error "IndexError"
 
 def cellsOfBases (bases : List (List Nat)) : List Cell := bases.map fun i => { base := i, path := [] }
 
-/-- the state after a history of operations, starting from level-0 cells with the given multi-indices -/
-def runFrom (d : Nat) (bases : List (List Nat)) (ops : List Op) : List Cell :=
-  ops.foldl (step d) (cellsOfBases bases)
+/-- the state after a history of operations, starting from level-0 cells with the given multi-indices
+(an `IndexError` of any step aborts the history, as an exception does) -/
+def runFrom (d : Nat) (bases : List (List Nat)) (ops : List Op) : Except String (List Cell) :=
+  ops.foldlM (step d) (cellsOfBases bases)
 
 /-- history on a full `shape` grid -/
-def run (shape : List Nat) (ops : List Op) : List Cell := runFrom shape.length (multiIndices shape) ops
+def run (shape : List Nat) (ops : List Op) : Except String (List Cell) := runFrom shape.length (multiIndices shape) ops
 
 /-- measure of a cell in units of a level-`L` cell -/
 def weight (d L : Nat) (c : Cell) : Nat := 2 ^ (d * (L - c.level))
